@@ -471,6 +471,10 @@ class Interp:
         return Closure(n, self.frames[-1], self.frames[-1].qual + ".<lambda>")
 
     def ev_ListComp(self, n):
+        if len(n.generators) == 1 and not self.st.merge:
+            itv = self.ev(n.generators[0].iter)
+            if self.meta_items(itv) is None and self.reg.invariant_for(self.frames[-1].qual, 'comp%d' % self._comp_ordinal(n)) is not None:
+                return self._symbolic_comprehension(n, 'list')
         out = []
         self._comp(n.generators, 0, lambda: out.append(self.ev(n.elt)))
         return self.new_list(out)
